@@ -986,9 +986,13 @@ Proof.
       * split; [|discriminate]. eapply effo_trans; [exact E2|]. eapply effo_trans; [exact E3 | apply effo_close_body; try exact Pben].
       * destruct (IH c3 (st_ok_eff _ _ _ S2 (proj1 E3))) as [E4 NS]. split; [|assumption].
         eapply effo_trans; [exact E2|]. eapply effo_trans; eassumption.
-    + destruct (effo_delete_pending P Pben 1 c2 id (s_nostuck _ S2)) as [E3 F3].
-      destruct (cl_delete_pending 1 [] c2 id) as [c3 stuck]. cbn [fst snd] in *. subst stuck. split; [|discriminate].
-      eapply effo_trans; eassumption.
+    + (* the chunk is dropped: its debit of the connection window is given back first (a frame step) *)
+      set (c2' := if (0 <? n)%Z then cl_add_window c2 0 n else c2).
+      assert (E2' : effo P c2 c2') by (unfold c2'; destruct (0 <? n)%Z; [apply effo_add_window | apply effo_refl]).
+      pose proof (st_ok_eff _ _ _ S2 (proj1 E2')) as S2'.
+      destruct (effo_delete_pending P Pben 1 c2' id (s_nostuck _ S2')) as [E3 F3].
+      destruct (cl_delete_pending 1 [] c2' id) as [c3 stuck]. cbn [fst snd] in *. subst stuck. split; [|discriminate].
+      eapply effo_trans; [exact E2|]. eapply effo_trans; eassumption.
 Qed.
 
 Lemma effo_flush_pending c ids : st_ok c ->
@@ -1373,7 +1377,9 @@ Definition disp_chk c1 (fr : sframe) (ok1 : option cctx) (err : cl_rserr) : opti
       if (cc_hdrStatus c1 =? 0)%Z then
         if negb (ct_gotStatus x) || negb (cc_hdrEndStream c1) then (ok1, CRSStream CEMalformed) else (ok1, CRSNone)
       else if ct_gotStatus x then (ok1, CRSStream CEMalformed)
-      else (Some (ctu_gotStatus x (200 <=? cc_hdrStatus c1)%Z), CRSNone)
+      else
+        let final := (200 <=? cc_hdrStatus c1)%Z in
+        (Some (ctu_gotStatus x final), if negb final && cc_hdrEndStream c1 then CRSStream CEMalformed else CRSNone)
     else (ok1, err)
   | _, _ => (ok1, err)
   end.
